@@ -611,11 +611,15 @@ impl LockFreeMemoryPool {
         
         // Always allocate from backing memory to ensure consistent pointer validation
         // External cache allocations would cause pointer validation failures in deallocate
-        let offset = self.next_offset.fetch_add(aligned_size as u32, Ordering::Relaxed);
-        
-        if offset as usize + aligned_size > self.config.memory_size {
-            return Err(ZiporaError::out_of_memory(aligned_size));
-        }
+        // Reserve the range only if it fits: a refused request must not move the bump offset
+        let limit = self.config.memory_size.min(u32::MAX as usize);
+        let offset = self
+            .next_offset
+            .fetch_update(Ordering::Relaxed, Ordering::Relaxed, |cur| {
+                let end = (cur as usize).checked_add(aligned_size)?;
+                if end > limit { None } else { Some(end as u32) }
+            })
+            .map_err(|_| ZiporaError::out_of_memory(aligned_size))?;
 
         let ptr = self.offset_to_ptr(offset)?;
         
